@@ -29,8 +29,8 @@ func (k Keeper) RegisterCoin(ctx sdk.Context, coinMetadata banktypes.Metadata) (
 		return nil, sdkerrors.Wrapf(types.ErrEVMDenom, "cannot register the EVM denomination %s", evmDenom)
 	}
 
-	// check if the denomination already registered
-	if k.IsDenomRegistered(ctx, coinMetadata.Name) {
+	// check if the denomination already registered (the registry is keyed by the base denomination)
+	if k.IsDenomRegistered(ctx, coinMetadata.Name) || k.IsDenomRegistered(ctx, coinMetadata.Base) {
 		return nil, sdkerrors.Wrapf(types.ErrTokenPairAlreadyExists, "coin denomination already registered: %s", coinMetadata.Name)
 	}
 
@@ -76,8 +76,8 @@ func (k Keeper) AddCoin(ctx sdk.Context, coinMetadata banktypes.Metadata, contra
 		return nil, sdkerrors.Wrapf(types.ErrEVMDenom, "cannot register the EVM denomination %s", evmDenom)
 	}
 
-	// check if the denomination already registered
-	if k.IsDenomRegistered(ctx, coinMetadata.Name) {
+	// check if the denomination already registered (the registry is keyed by the base denomination)
+	if k.IsDenomRegistered(ctx, coinMetadata.Name) || k.IsDenomRegistered(ctx, coinMetadata.Base) {
 		return nil, sdkerrors.Wrapf(types.ErrTokenPairAlreadyExists, "coin denomination already registered: %s", coinMetadata.Name)
 	}
 
